@@ -1046,6 +1046,7 @@ package go9p
 //@   ensures  [C08 C07 successor] old(req.status) & 4 == 0 && hasnext ==> started
 // the request started next is the one that was queued behind this one, and the flushes waiting on this one move to it
 //@   at go((*SrvReq).process) requires [C08 C07 rightsuccessor] arg0 == old(req.prev)
+//@   at go((*SrvReq).process) requires [C08 C03 successorlast] pp && (status & 1 != 0 || queued)
 //@   assigns  everything
 
 //@ func (*Srv).version(srv, req)
@@ -1412,6 +1413,9 @@ package go9p
 //@ func (*Ufs).Open(ufs, req)
 //@   property C18 C17 C06
 //@   requires ufsreq(req)
+//@   ghost nopen int = 0
+//@   at call(os.OpenFile) ghost nopen := nopen + 1
+//@   at call((*SrvReq).RespondRopen) requires [C11 C17 oneopen] nopen == 1
 //@   at call(os.OpenFile) requires [confined] confined(arg0) && arg0 == old(upath(req))
 //@   at call(os.OpenFile) requires [C17 C14 flags] arg1 == ite(old(req.Tc.Mode) & 3 == 1, os.O_WRONLY, ite(old(req.Tc.Mode) & 3 == 2, os.O_RDWR, os.O_RDONLY)) + ite(old(req.Tc.Mode) & 16 != 0, os.O_TRUNC, 0)
 
@@ -1681,6 +1685,8 @@ package go9p
 //@   at call(Unpack) requires [stream] unread(conn, buf, pos, rd)
 //@   at call(Unpack) requires [aligned] rd - pos == fstart(instream(conn), nf)
 //@   at call(Unpack) requires [C13 C12 dialect] arg1 == conn.Dotu
+// a well-formed frame of up to msize bytes is accepted: the loop hangs up (first Close) only on a larger announcement
+//@   at call(net.Conn.Close)#1 requires [C12 C03 onlyoversize] pos > 4 && u32le(buf, 0) > conn.Msize
 //@   at call(Unpack) after nf := nf + 1
 //@   at call((*SrvReq).process) requires [C08 synconly] arg0.Tc.Type == 100
 //@   at go((*SrvReq).process) requires [C19 C12 C13 versionsync] arg0.Tc.Type != 100
@@ -1865,6 +1871,9 @@ package go9p
 //@   at unlock(conn.Unlock) requires [C11 allfids] len(fids) == nfound
 //@   ghost ndest int = 0
 //@   at call(SrvFidOps.FidDestroy) ghost ndest := ndest + 1
+//@   ghost signalled bool = false
+//@   at send(conn.done) ghost signalled := true
+//@   ensures  [C11 signalled] signalled
 //@   ensures  [C11 C04 alldestroyed] implements(old(conn.Srv.ops), "SrvFidOps") ==> ndest == nfound
 //@   ensures  implements(old(conn.Srv.ops), "ConnOps") ==> nclosed == 1
 //@   ensures  nclosed <= 1
@@ -1938,10 +1947,19 @@ package go9p
 //@   ghost gotdone bool = false
 //@   at select(*) after gotdone := ret0 == 0
 //@   ensures  [C10 drains] gotdone
+// the bytes on their way to the transport are a private copy: the request's Fcall may be recycled and re-packed by
+// another goroutine as soon as the reply has been delivered
+//@   at call(net.Conn.Write) requires [C09 C19 privatecopy] obj(arg1) != obj(req.Tc.Pkt)
+// a write that fails closes the connection, which is what wakes the receive loop and fails the pending calls
+//@   ghost wfail bool = false
+//@   ghost nclose int = 0
+//@   at call(net.Conn.Write) after wfail := wfail || ret1 != nil
+//@   at call(net.Conn.Close) ghost nclose := nclose + 1
+//@   at select(*) requires [C10 closeonfail] wfail ==> nclose >= 1
 //@   loop 1
-//@     invariant clnt != nil && clnt.conn != nil && nolocks()
+//@     invariant clnt != nil && clnt.conn != nil && nolocks() && nclose >= 0 && (wfail ==> nclose >= 1)
 //@   loop 2
-//@     invariant clnt != nil && clnt.conn != nil && nolocks()
+//@     invariant clnt != nil && clnt.conn != nil && nolocks() && req != nil && req.Tc != nil && obj(buf) != obj(req.Tc.Pkt) && nclose >= 0 && (wfail ==> nclose >= 1)
 
 // requests made through a Tag carry the Tag's tag and are not taken from (nor given back to) the client's pool
 //@ func (*Tag).reqAlloc(tag) (r)
@@ -2089,6 +2107,13 @@ package go9p
 //@   at call(net.Conn.Read) ensures 0 <= ret0 && ret0 <= len(arg1) && forall k int :: 0 <= k && k < ret0 ==> arg1[k] == instream(clnt)[rd + k]
 //@   at call(net.Conn.Read) after rd := rd + ret0
 //@   at call(Unpack) requires [complete] 4 < pos && u32le(buf, 0) <= pos && pos <= len(buf)
+//@   at call(Unpack) requires [C13 C12 C10 gate] u32le(buf, 0) <= clnt.Msize
+//@   at call(net.Conn.Read) requires [C10 C13 bounded] pos <= 4 || u32le(buf, 0) <= clnt.Msize
+//@   ghost readfailed bool = false
+//@   ghost nclose int = 0
+//@   at call(net.Conn.Read) after readfailed := ret1 != nil || ret0 == 0
+//@   at call(net.Conn.Close) ghost nclose := nclose + 1
+//@   at send(clnt.done) requires [C10 closedfirst] readfailed || nclose >= 1
 //@   at call(Unpack) requires [stream] forall k int :: 0 <= k && k < pos ==> buf[k] == instream(clnt)[rd - pos + k]
 //@   at send(r.Done)#1 requires [own] r.Rc == fc && fc != nil && r.Tc.Tag == fc.Tag
 // the answered request is unlinked from the pending list: its neighbours (or the list ends) now point past it
@@ -2097,7 +2122,8 @@ package go9p
 //@   at send(r.Done)#2 requires [failed] r.Err != nil
 //@   loop 1
 //@     invariant clnt != nil && clnt.conn != nil && nolocks() && 0 <= pos && pos <= len(buf) && clnts != nil
-//@     invariant pos <= 4 || pos < u32le(buf, 0)
+//@     invariant pos <= 4 || (pos < u32le(buf, 0) && u32le(buf, 0) <= clnt.Msize)
+//@     invariant !readfailed && nclose == 0
 //@     invariant forall k int :: 0 <= k && k < pos ==> buf[k] == instream(clnt)[rd - pos + k]
 //@     invariant len(buf) >= clnt.Msize ==> pos < len(buf)
 //@     invariant (dobj == 0 || dobj == obj(buf)) && (dobj == obj(buf) ==> off(buf) >= dend)
@@ -2105,10 +2131,12 @@ package go9p
 //@     invariant clnt != nil && clnt.conn != nil && nolocks() && 0 <= pos && pos <= len(buf) && clnts != nil
 //@     invariant forall k int :: 0 <= k && k < pos ==> buf[k] == instream(clnt)[rd - pos + k]
 //@     invariant (dobj == 0 || dobj == obj(buf)) && (dobj == obj(buf) ==> off(buf) >= dend)
+//@     invariant !readfailed && nclose == 0
 //@   loop 3
 //@     invariant clnt != nil && clnt.conn != nil && heldonly(clnt) && fc != nil && 0 <= pos && pos <= len(buf) && fcsize == u32le(buf, 0) && 7 <= fcsize && fcsize <= pos && clnts != nil
 //@     invariant forall k int :: 0 <= k && k < pos ==> buf[k] == instream(clnt)[rd - pos + k]
 //@     invariant dobj == obj(buf) && dend == off(buf) + fcsize
+//@     invariant !readfailed && nclose == 0
 //@   loop 4
 //@     invariant clnt != nil && nolocks() && err != nil && clnts != nil
 
